@@ -151,7 +151,9 @@ type S struct {
 	z3n       *proc
 	TimeoutMs int
 	symMemo   map[*term.T][]string
-	Diff      bool // cross-check every query with a second solver
+	Deadline  time.Time // after this instant every query answers Unknown at once (wall budget of the run)
+	hardTO    int       // consecutive hard timeouts (solver killed) on the current path
+	Diff      bool      // cross-check every query with a second solver
 	DiffBad   int
 	LogFile   io.Writer
 }
@@ -465,8 +467,16 @@ func copyModel(m term.Model) term.Model {
 	return c
 }
 
+// ResetPath is called at the start of every path.
+func (s *S) ResetPath() { s.hardTO = 0 }
+
 func (s *S) ask(p *proc, text string, syms []*term.T, wantModel bool) (Result, term.Model) {
 	t0 := time.Now()
+	if (!s.Deadline.IsZero() && t0.After(s.Deadline)) || s.hardTO >= 3 {
+		// the run's wall budget is used up, or this path keeps producing queries that the
+		// solvers do not answer within the hard limit: inconclusive, do not grind on
+		return Unknown, nil
+	}
 	defer func() {
 		d := int64(time.Since(t0))
 		switch p.name {
@@ -501,8 +511,12 @@ func (s *S) ask(p *proc, text string, syms []*term.T, wantModel bool) (Result, t
 	if err != nil {
 		p.stop()
 		atomic.AddInt64(&Global.Errors, 1)
+		if err.Error() == "solver hard timeout" {
+			s.hardTO++
+		}
 		return Unknown, nil
 	}
+	s.hardTO = 0
 	res := Unknown
 	switch ans {
 	case "sat":
